@@ -203,6 +203,10 @@ func vxFillFacts(t vxTemplate, k int, store factstore.FactStore, ref *vxRef) {
 	}
 }
 
+func analysisAnalyze(rules []ast.Clause, decls map[ast.PredicateSym]ast.Decl) (*analysis.ProgramInfo, error) {
+	return analysis.AnalyzeOneUnit(parse.SourceUnit{Clauses: rules}, decls)
+}
+
 func vxAnalyze(t vxTemplate) (*analysis.ProgramInfo, error) {
 	decls := map[ast.PredicateSym]ast.Decl{}
 	for _, p := range t.edb {
